@@ -467,7 +467,7 @@ func (s *c19session) do(target string) webResp {
 // 0 of a new run) and returns the scheduler result and PProf's error.
 func withWeb(x *xctx, cfg simrt.Config, profileBytes []byte, script func(s *c19session)) (simrt.Result, error) {
 	simos.PutFile("/sim/cwd/prof.pb.gz", profileBytes)
-	ui := &simUI{}
+	ui := newTaskUI()
 	var perr error
 	o := &plugin.Options{
 		Flagset: newFlags([]string{"-http=localhost:8080", "-no_browser", "prof.pb.gz"}),
